@@ -93,13 +93,19 @@ for _i, (_nm, _mk) in enumerate([
                           assumptions=['the header image is a valid header (what _dbus_header_load accepts: C01.hdr.exact.*; what edits are supposed to keep: not decided, realignment core)']))
 
 # ---- bounded "edited field reads back, others unchanged" through the real in-place set of a UINT32 field -------
-for _le, _f, _codes, _tier in ((1, 5, (5, 9), 'quick'), (0, 9, (5, 9), 'quick'), (0, 5, (9, 5), 'thorough'), (1, 9, (6 + 3, 5), 'thorough')):
-    _a = skel(_le, 32, 16, [(16, 'u'), (24, 'u')]) + 'in_buf[16]=%d;in_buf[24]=%d;' % _codes
-    UNITS.append(dict(name='C12.set_fixed.f%d.%s32' % (_f, 'le' if _le else 'be'), props=['C12', 'C14'], kind='B', route='stub',
+for _le, _f, _codes, _tier in ((1, 5, (5, 9), 'quick'), (0, 9, (5, 9), 'quick'), (0, 5, (9, 5), 'thorough'), (1, 9, (9, 5), 'thorough'), (1, 5, (3, 5), 'quick'), (0, 9, (6, 9), 'thorough')):
+    if _codes[0] in (3, 6):      # a string field (MEMBER / DESTINATION, 3 content bytes) in front of the UINT32 field
+        _n, _a = skel_str(_le, 's', 3, True)
+        _a += 'in_buf[16]=%d;in_buf[32]=%d;' % _codes
+        _vat = 36
+    else:
+        _n, _a, _vat = 32, skel(_le, 32, 16, [(16, 'u'), (24, 'u')]) + 'in_buf[16]=%d;in_buf[24]=%d;' % _codes, 20 + 8 * _codes.index(_f)
+    UNITS.append(dict(name='C12.set_fixed.f%d_in_%d_%d.%s%d' % (_f, _codes[0], _codes[1], 'le' if _le else 'be', _n), props=['C12', 'C14'], kind='B', route='stub',
                       tus=[dict(file=HDR, include_as='VERIF_TU'), dict(file=STR), dict(file=BASIC), dict(file=REC), dict(file=SIG)],
-                      harness='harness/c12_setfixed.c', extra_sources=[ASSERT, 'stubs/c07_mem.c'], defines=['VERIF_N=32', 'VERIF_FIELD=%d' % _f, 'VERIF_VAT=%d' % (20 + 8 * _codes.index(_f)), 'VERIF_HDR_ASSUME=%s' % _a],
-                      replace_calls=PAD_STUBS, unwind=35, timeout=2400, tier=_tier, expect_s=200,
-                      bounds={'header_bytes': 32, 'skeleton': ('little' if _le else 'big') + ' endian, two UINT32 fields with codes %d,%d (values, message type, flags, serial symbolic)' % _codes,
+                      harness='harness/c12_setfixed.c', extra_sources=[ASSERT, 'stubs/c07_mem.c'], defines=['VERIF_N=%d' % _n, 'VERIF_FIELD=%d' % _f, 'VERIF_VAT=%d' % _vat, 'VERIF_HDR_ASSUME=%s' % _a],
+                      replace_calls=dict(PAD_STUBS, write_basic_field='verif_nr_write_basic_field', _dbus_type_writer_init_values_only='verif_nr_writer_init_values_only',
+                                         reader_set_basic_variable_length='verif_nr_set_basic_variable_length'), unwind=_n + 3, timeout=2400, tier=_tier, expect_s=30,
+                      bounds={'header_bytes': _n, 'skeleton': ('little' if _le else 'big') + ' endian, two fields with codes %d,%d (first a 3-byte string if its code is 3 or 6, else UINT32; values, string content, message type, flags, serial symbolic)' % _codes,
                               'edit': 'set field %d (UINT32) that already exists: in-place branch only' % _f},
                       functions=[dict(name='_dbus_header_set_field_basic / find_field_for_modification / set_basic_field / reserve_header_padding / correct_header_padding / _dbus_header_cache_*', file=HDR, status='bounded'),
                                  dict(name='_dbus_type_reader_set_basic -> reader_set_basic_fixed_length, values reader', file=REC, status='bounded'),
